@@ -23,6 +23,9 @@ import VsgProofs.Lemmas.BaseCaseAscii
 import VsgProofs.Lemmas.BaseStructDispatch
 import VsgProofs.Lemmas.BaseMultiDispatch
 import VsgProofs.Lemmas.BFull2Indent   -- wp2_bfull2
+import VsgProofs.Lemmas.BFull2Affix   -- wp2b_affix
+import VsgModel.Generated.BFull2Rules   -- wp2b_affix
+import VsgProofs.Lemmas.BFull2IndentVar   -- wp2b_indent
 namespace Vsgm.C03
 open Vsgm
 
@@ -1030,6 +1033,64 @@ example :
 end wp2_bfull2
 
 /-! ### END wp2_bfull2 -/
+
+
+/-! ### BEGIN wp2b_affix (token_prefix / token_suffix, whole rule) -/
+
+section wp2b_affix
+open BFull2
+
+/-- **the 52 naming rules never change the file**: instance of `ruleFix_unfixable` for the concrete semantics of
+    `BFull2/Affix.lean` — any `lTokens`, extractor variant, option list (also `None`), `str.lower`, exception oracle,
+    `--fix_only` dictionary and token list -/
+theorem bfull2_affix_never_fixes (r : RuleCfg) (V : TM.View Tok) (lower : Str → Str) (exc : Str → Bool) (P : Affix.Params)
+    (fo : Option FixOnly) (f : List Tok) (h : r.fixable = false) :
+    ruleFix r (Affix.sem V lower exc P) fo f = (f, false) :=
+  ruleFix_unfixable r _ fo f h
+
+/-- **table fact**: every rule of the generated prefix / suffix table is unfixable, in phase 7, disabled by default,
+    does not override `Rule.fix`, and there are 52 of them (26 prefix, 26 suffix; 30 plain, 10 between, 2 between-unless,
+    10 port-mode extractors) -/
+theorem bfull2_affix_table :
+    (∀ a ∈ Gen.affixRuleTable, ∃ r ∈ Gen.ruleTable, r.id = a.id ∧ r.fixable = false ∧ r.phase = 7 ∧ r.disable = true ∧
+      r.overridesFix = false) ∧
+    Gen.affixRuleTable.length = 52 ∧ (Gen.affixRuleTable.filter (·.kind == 0)).length = 26 ∧
+    (Gen.affixRuleTable.filter (·.variant == 0)).length = 30 ∧ (Gen.affixRuleTable.filter (·.variant == 3)).length = 10 := by
+  decide +kernel
+
+/-- … and even a rule object forced to `fixable: true` hands every region back as it is: `_fix_violation` finds none of
+    the three actions it knows (the action of these violations is `None`) -/
+theorem bfull2_affix_fixV_id (V : TM.View Tok) (lower : Str → Str) (exc : Str → Bool) (P : Affix.Params) (v : Viol) :
+    (Affix.sem V lower exc P).fixV v = v.toks := rfl
+
+end wp2b_affix
+
+/-! ### END wp2b_affix -/
+
+
+/-! ### BEGIN wp2b_indent (all four extractors of token_indent) -/
+
+section wp2b_indent
+open BFull2
+
+/-- **whole-rule layout-only, all 102 indent rules** (plain, between, between-unless, unless extractors), for every
+    token list, indent assignment, size and both styles; no hypothesis about the selection -/
+theorem bfull2_indent_layoutOnly_variants (r : RuleCfg) (uid : Tok → Option TM.Key) (P : Params) (ind : Oracle) (f : List Tok)
+    (hcs : CsOk P.cs) (hs : StyleOk P) (hb : ∀ t ∈ f, t.isBof = false) (hk : ∀ t ∈ f, isWsU uid t = true → t.kind = .ws) :
+    LayoutOnly f (ruleFix r (sem uid P ind) none f).1 := by
+  unfold LayoutOnly
+  by_cases hf : r.fixable = true
+  · have e : (ruleFix r (sem uid P ind) none f).1 = fixAll uid P ind f := by
+      simp [ruleFix, hf, filterFixOnly, fixAll]
+    rw [e]
+    exact (fixAll_hom_variant uid P ind nonLayout nonLayout_append
+      (by intro t ht; simp [nonLayout, Tok.isLayout, Kind.isLayout, ht]) hcs hs f hb hk).symm
+  · have : r.fixable = false := by simpa using hf
+    simp [ruleFix, this]
+
+end wp2b_indent
+
+/-! ### END wp2b_indent -/
 
 
 end Vsgm.C03
